@@ -482,6 +482,7 @@ where
     let values = cfg.values;
     let pairs = cfg.pairs;
 
+    let old = ex.old_ro.take();
     let v = ex.v();
     let run = |rng: &mut Rng, stats: &mut Counter| -> Result<(), (String, Fail)> {
         let tag = |view: &'static str| move |f: Fail| (view.to_string(), f);
@@ -546,6 +547,20 @@ where
                 stats.bump("api:stored-views(no-value-oracle)");
             }
         }
+        // a clone taken at the end of the previous probe, before whatever happened since
+        if let Some(old) = &old {
+            match &stored_view {
+                Some(sv) if values => check_readable(old, sv, rng, &marks, 3, stats, "ro-clone(old)").map_err(tag("ro-clone(old)"))?,
+                _ => {
+                    let n = old.len();
+                    let _ = old.collect();
+                    let _ = old.collect_one_at(n.saturating_sub(1));
+                    let _ = old.collect_one_at(n);
+                    let _ = old.collect_range_at(0, usize::MAX);
+                }
+            }
+            stats.bump("api:old-ro-clone");
+        }
         if let Some(i) = slots.iter().position(|s| s.is_some())
             && let Some(got) = v.v_read_ref(i)
         {
@@ -568,6 +583,10 @@ where
     };
     ex.stats.merge(&stats);
     ex.stats.bump(&format!("probe:state:{class}"));
+    drop(old);
+    // keep a clone for the next probe (only while the vector has no holes region: a clone made
+    // now must not pin a region the writer may have to remove later)
+    ex.old_ro = if ex.model.holes().is_empty() && !ex.holes_region_exists() { Some(ex.v().v_ro()) } else { None };
     {
         let l = log.borrow();
         ex.stats.add("access:events_checked", l.checked);
